@@ -964,3 +964,137 @@ func (c *Ctx) checkConfiguredDestinations(rule string) {
 	}
 	c.ok(rule, key, stores[0].Pos(), "destinations = the configured HostPorts list, or {HostPort} when that list is empty")
 }
+
+// checkHandleOwnTemplate: the handle an Allocate{Counter,Gauge,Timer} call returns is built by that
+// call: a cachedMetric literal whose metric is the result of newMetric(name, tags, <kind>) with the
+// call's own name and tags and the kind of the method. A handle that can come out of a table (a memo
+// of earlier allocations) is whatever the table's key makes of it: keyed by name+tags a gauge is
+// served the counter allocated earlier for the same series - its values are emitted under the wrong
+// kind, or as the sizing placeholder.
+func (c *Ctx) checkHandleOwnTemplate(rule string) {
+	const pk = "m3"
+	tmpl := c.fn(pk, "reporter", "newMetric")
+	fMetric := c.field(pk, "cachedMetric", "metric")
+	if tmpl == nil || fMetric == nil {
+		c.missing(rule, "m3.reporter.newMetric / cachedMetric.metric")
+		return
+	}
+	kindOf := func(name string) (int64, bool) {
+		k, ok := c.pkg(pk).Types.Scope().Lookup(name).(*types.Const)
+		if !ok {
+			return 0, false
+		}
+		v, exact := constant.Int64Val(constant.ToInt(k.Val()))
+		return v, exact
+	}
+	n := 0
+	for _, a := range []struct{ method, kind string }{{"AllocateCounter", "counterType"}, {"AllocateGauge", "gaugeType"}, {"AllocateTimer", "timerType"}, {"allocateCounter", "counterType"}} {
+		fn := c.fn(pk, "reporter", a.method)
+		if fn == nil {
+			if a.method == "allocateCounter" {
+				continue // an internal helper; its absence is not a finding
+			}
+			c.missing(rule, "m3.reporter."+a.method)
+			continue
+		}
+		kv, okK := kindOf(a.kind)
+		if !okK {
+			c.missing(rule, "m3."+a.kind)
+			continue
+		}
+		key := c.fnKey(fn)
+		c.sawFunc(key)
+		n++
+		okAll := true
+		var classify func(v ssa.Value, at ssa.Instruction, d int) string
+		classify = func(v ssa.Value, at ssa.Instruction, d int) string {
+			v = stripConv(v)
+			if d == 0 {
+				return "origin not traced"
+			}
+			switch x := v.(type) {
+			case *ssa.Phi:
+				for _, e := range x.Edges {
+					if w := classify(e, at, d-1); w != "" {
+						return w
+					}
+				}
+				return ""
+			case *ssa.Call:
+				// delegation to the sibling allocator of the same kind (AllocateCounter -> allocateCounter)
+				if g := staticCallee(x); g != nil && g.Package() == fn.Package() && g != fn && g.Name() == "allocateCounter" && a.kind == "counterType" {
+					if len(x.Call.Args) == 3 && canon(x.Call.Args[1]) == ssa.Value(fn.Params[1]) && canon(x.Call.Args[2]) == ssa.Value(fn.Params[2]) {
+						return ""
+					}
+					return "the sibling allocator is not called with this call's name and tags"
+				}
+				return "the handle is the result of " + x.Call.String()
+			case *ssa.UnOp:
+				if x.Op != token.MUL {
+					return fmt.Sprintf("unexpected %s", x)
+				}
+				al, isAl := x.X.(*ssa.Alloc)
+				if !isAl {
+					return "the handle is read from " + accessPath(x.X) + ", not built by this call"
+				}
+				// a local: either the composite literal or a variable assigned from elsewhere
+				found := false
+				for _, u := range *al.Referrers() {
+					switch y := u.(type) {
+					case *ssa.Store:
+						if y.Addr == ssa.Value(al) {
+							if w := classify(y.Val, y, d-1); w != "" {
+								return w
+							}
+							found = true
+						}
+					case *ssa.FieldAddr:
+						if structFieldOf(al.Type(), y.Field) != fMetric || y.Referrers() == nil {
+							continue
+						}
+						for _, uu := range *y.Referrers() {
+							st, isSt := uu.(*ssa.Store)
+							if !isSt || st.Addr != ssa.Value(y) {
+								continue
+							}
+							call, isCall := stripConv(st.Val).(*ssa.Call)
+							if !isCall || staticCallee(call) != tmpl {
+								return "the handle's metric is not the result of newMetric"
+							}
+							args := call.Call.Args
+							if len(args) != 4 || canon(args[1]) != ssa.Value(fn.Params[1]) || canon(args[2]) != ssa.Value(fn.Params[2]) {
+								return "newMetric is not called with this call's name and tags"
+							}
+							if k, isK := constInt(args[3]); !isK || k != kv {
+								return "newMetric is not called with " + a.kind
+							}
+							found = true
+						}
+					}
+				}
+				if !found {
+					return "the handle's metric field is never set from newMetric"
+				}
+				return ""
+			case *ssa.Extract, *ssa.Lookup:
+				return "the handle is taken out of a table (" + x.String() + "), not built by this call"
+			}
+			return fmt.Sprintf("the handle is %T, not a literal built by this call", v)
+		}
+		for _, r := range returnsOf(fn) {
+			if len(r.Results) == 0 {
+				continue
+			}
+			for _, va := range resultValues(r, 0) {
+				if w := classify(va.Val, va.At, 8); w != "" {
+					okAll = false
+					c.bad(rule, key, va.At.Pos(), a.method+": "+w+": the metric emitted through the handle need not have this call's name, tags and kind ("+a.kind+") - a second kind of the same series, or a colliding name+tags key, is served another metric's template, and its values go out under that kind or as the sizing placeholder", c.describe(va.At))
+				}
+			}
+		}
+		if okAll {
+			c.ok(rule, key, fn.Pos(), "the returned handle is a literal of this call whose metric is newMetric(name, tags, "+a.kind+")")
+		}
+	}
+	c.floor(rule, n, 3)
+}
